@@ -1,6 +1,7 @@
 """C14: mutual exclusion of mutating invocations. Lock.tla is model-checked (3 contenders x 4 APIs, kills);
 TLC-chosen interleavings are forced on the real binary by parking the holder at the guarded point right
 after lock acquisition; LockJudge.tla (TLC) judges the recorded intervals."""
+import itertools
 import hashlib, json, os, random, signal, subprocess, time
 from concurrent.futures import ThreadPoolExecutor
 import vlib, fixture
@@ -25,7 +26,12 @@ def snapshot(fx):
     return h.hexdigest()
 
 
+_out_delete_counter = itertools.count()
+
+
 class Proc:
+    plain = False
+
     def __init__(self, fx, n, api, park=None, prefix=None, deaf=False):
         """deaf: nobody reads the invocation's standard error (a pipe whose reading end is closed): whatever it wanted
         to say there is lost, its exit status is all there is"""
@@ -46,7 +52,10 @@ class Proc:
         elif api == "cp_delete":
             args = ["checkpoint", "delete"]
         else:
-            args = ["out", "delete", "--all"]
+            # `out delete` takes the lock with and without --all (without it, it only reports what --all would recover):
+            # every second unparked one is the plain form -- as a loser it must fail with the lock error like the others
+            self.plain = park is None and next(_out_delete_counter) % 2 == 1
+            args = ["out", "delete"] if self.plain else ["out", "delete", "--all"]
         self.kill_ts = -1
         self.spawn_ts = time.monotonic_ns()
         if deaf:
@@ -104,7 +113,7 @@ class Proc:
             pass
         return {"p": self.n, "api": self.api, "spawn_ts": self.spawn_ts, "exit_ts": self.exit_ts, "acquired_ts": acq,
                 "releasing_ts": rel, "kill_ts": self.kill_ts, "trying_ts": trying, "held_after_try_ms": -1,
-                "rc": self.rc if self.rc is not None else -9, "err": self.err, "errlost": self.deaf, "helpers": helpers, "changed": changed}
+                "rc": self.rc if self.rc is not None else -9, "err": self.err, "errlost": self.deaf, "helpers": helpers, "changed": changed, "plain": self.plain}
 
     def trying(self):
         try:
@@ -324,13 +333,13 @@ def run(pid, tier):
         # the composed system (Changes x Store x checkpoint file x lock, two invocations in flight, environment edits):
         # checkpoint and store only ever change in steps of the lock holder; readers never see a torn result
         mono = ('CONSTANTS Procs = {1, 2}\n Paths = {"af", "bf"}\n Cfg <- MCCfg\n Comp <- MCComp\n N = 2\n MaxRuns = 2\n'
-                ' MaxCommits = 2\n MaxEdits = 2\nSPECIFICATION Spec\nINVARIANTS AtMostOneHolder HolderIsPastLock ResultShowNeverTorn '
+                ' MaxCommits = 2\n MaxEdits = 3\nSPECIFICATION Spec\nINVARIANTS AtMostOneHolder HolderIsPastLock ResultShowNeverTorn '
                 'RunCoversAffected AnalyzeNeverMixes CpShowNeverMixes CheckpointIsSnapshot\nPROPERTIES MutationsUnderLock\nCHECK_DEADLOCK FALSE\n')
         r2 = vlib.tlc("mc/MCMonorail", mono, workers=10, timeout=3000, xmx="20g")
         if r2.violated:
             chk.model_violation("MCMonorail", r2)
         vlib.require_ok(r2, "MCMonorail")
-        chk.add_model("MCMonorail/Monorail", r2, "2 invocations, 2 paths, N=2, 2 runs, 2 commits, 2 edits")
+        chk.add_model("MCMonorail/Monorail", r2, "2 invocations, 2 paths, N=2, 2 runs, 2 commits, 3 edits, 3 reader kinds")
         # for ANY number of contenders and APIs: TLAPS proof of pairwise mutual exclusion (inductive invariant HolderInv)
         import subprocess, shutil, re as _re
         pr = subprocess.run(["timeout", "900", "tlapm", "--threads", "8", "-I", vlib.SPEC, "LockProof.tla"],
